@@ -1,7 +1,7 @@
 #!/bin/bash
 # usage: confirm_seed.sh <ID> <A|B>   -- confirm a seeded change independently in its scratch worktree
 ID=$1; V=$2
-WT=/tmp/seed/$ID/wt; OUT=/tmp/seed/$ID/out
+BASE=${SEEDBASE:-/tmp/seed}; WT=$BASE/$ID/wt; OUT=$BASE/$ID/out
 LOG=$OUT/${V}_confirm.log
 FEAT=""
 [ "$ID" = "C18" ] && FEAT="--features sdp,blas-src,lapack-src"
